@@ -1,12 +1,25 @@
 (* C02 — wire format, model runner and the trace oracle prop_ok. Definitions only.
 
    case  = F WB  <writer ops>  <writer carrier script>  tamper(4 numbers)  <reads>  <reader carrier script>
-           writer op: 0 len (poll_write of len bytes) | 1 (poll_flush); lists are count-prefixed;
-           reads: pairs (buffer length, repetitions).
-   trace = 1  MSG TAG MFL read_buffer.len encrypt_buffer.len
-           <writer records: result(2) state(3) bytes-handed-to-carrier(1)>  ok
-           [ final-flush record  <frame headers seen on the wire>  bytes-the-carrier-will-deliver
-             <reader records: result(3) state(7) bytes-pulled(1)> ]                       *)
+             (one round, the dialer writes, one manipulation; still produced by C19 and the stored corpus)
+         | 9002 F WB early  <rounds>
+           round = dir <writer ops> <writer carrier script> <tampers> <schedule> <reader carrier script>
+                   <carrier script for the writer calls of the schedule>
+           writer op: 0 len (poll_write of len bytes) | 1 (poll_flush) | 2 (poll_close) | 3 <lens>
+           (poll_write_vectored); tamper: 4 numbers (tag a b c); schedule item: 0 buflen repetitions
+           (poll_read calls) | 1 <writer op> (a call on the writer half of the READING socket);
+           lists are count-prefixed.  `early` (only with a first round of direction 0): the first
+           round's ciphertext is put behind handshake message 3 in the listener's carrier before the
+           listener's handshake() has read it — the model is the same, the handshake must not take
+           a byte too many.
+   trace = 1  MSG TAG MFL read_buffer.len encrypt_buffer.len SNOW_MAX decrypt_buffer.len
+           per round: <writer records>  ok  final-flush record  <headers of the frames that reached the
+           carrier completely since the last delivery>  bytes-the-reader's-carrier-will-deliver
+           <records of the schedule: 0 reader-record | 1 writer-record>  ok2
+           writer record = result(2) state(3) bytes-handed-to-carrier last-carrier-call-pending
+                           carrier-closed sending-nonce
+           reader record = result(3) state(7) bytes-pulled last-carrier-call-pending receiving-nonce
+                           read_buffer[..nread]-is-the-wire-window                                  *)
 From Coq Require Import List NArith Bool.
 From V.common Require Import Wire.
 From V.gen Require Import Consts.
@@ -16,6 +29,8 @@ Open Scope N_scope.
 
 Definition REP_MAX : N := 20000.
 Definition IDX_MAX : N := 100000.
+Definition FORGE_MAX : N := 70000.
+Definition EXT_TAG : N := 9002.
 
 Definition p_wop : parser wop :=
   let* tag := pN in
@@ -30,6 +45,7 @@ Definition p_wop : parser wop :=
 Definition p_tamper : parser tamper :=
   let* tag := pN in let* a := pN in let* b := pN in let* c := pN in
   let i := N.min a IDX_MAX in     (* an index beyond any wire is a no-op either way *)
+  let j := N.min b IDX_MAX in
   match tag with
   | 0 => pret TNone
   | 1 => pret (TFlip i b c)
@@ -37,25 +53,56 @@ Definition p_tamper : parser tamper :=
   | 3 => pret (TDup i)
   | 4 => pret (TSwap i)
   | 5 => pret (TTrunc a)
+  | 6 => pret (TMove i j)
+  | 7 => pret (TCopy i j)
+  | 8 => pret (TForge i b (N.min c FORGE_MAX))
+  | 9 => pret (TGrow i)
+  | 10 => pret (TShrink i)
+  | 11 => pret (TForeign i)
   | _ => pfail
   end.
 
-Record case := mkCase {
-  k_cfg : cfg; k_wops : list wop; k_wsc : list N; k_tamper : tamper;
-  k_reads : list (N * N); k_rsc : list N
-}.
+Record case := mkCase { k_cfg : cfg; k_early : bool; k_rounds : list round }.
+
+Definition expand1 (b r : N) : list sop := repeat (SR b) (N.to_nat (N.min r REP_MAX)).
+
+Definition p_sitem : parser (list sop) :=
+  let* tag := pN in
+  match tag with
+  | 0 => let* b := pN in let* r := pN in pret (expand1 b r)
+  | 1 => let* o := p_wop in pret [SW o]
+  | _ => pfail
+  end.
+
+Definition p_round : parser round :=
+  let* d := pN in
+  let* wops := plist p_wop in
+  let* wsc := plist pN in
+  let* ts := plist p_tamper in
+  let* sched := plist p_sitem in
+  let* rsc := plist pN in
+  let* xsc := plist pN in
+  if 1 <? d then pfail else pret (mkRound (negb (d =? 0)) wops wsc ts (concat sched) rsc xsc).
+
+Definition p_case_old : parser case :=
+  let* f := pN in let* wb := pN in
+  let* wops := plist p_wop in
+  let* wsc := plist pN in
+  let* t := p_tamper in
+  let* reads := plist (let* b := pN in let* r := pN in pret (expand1 b r)) in
+  let* rsc := plist pN in
+  pret (mkCase (mkCfg f wb MAX_FRAME_LEN) false [mkRound false wops wsc [t] (concat reads) rsc []]).
+
+Definition p_case_ext : parser case :=
+  let* f := pN in let* wb := pN in let* early := pN in
+  let* rds := plist p_round in
+  if 1 <? early then pfail else pret (mkCase (mkCfg f wb MAX_FRAME_LEN) (negb (early =? 0)) rds).
 
 Definition decode_case (l : list N) : option case :=
-  pall (let* f := pN in let* wb := pN in
-        let* wops := plist p_wop in
-        let* wsc := plist pN in
-        let* t := p_tamper in
-        let* reads := plist (let* b := pN in let* r := pN in pret (b, r)) in
-        let* rsc := plist pN in
-        pret (mkCase (mkCfg f wb MAX_FRAME_LEN) wops wsc t reads rsc)) l.
-
-Definition expand (reads : list (N * N)) : list N :=
-  flat_map (fun br : N * N => repeat (fst br) (N.to_nat (N.min (snd br) REP_MAX))) reads.
+  match l with
+  | x :: t => if x =? EXT_TAG then pall p_case_ext t else pall p_case_old l
+  | [] => None
+  end.
 
 (* ---- encoders ---- *)
 Definition enc_wres (x : wres) : list N :=
@@ -65,8 +112,8 @@ Definition enc_wstate (s : wstate) : list N :=
 Definition enc_wrec (xr : wres * writer) : list N :=
   let '(x, w) := xr in
   match x with
-  | WPanic => [3; 0; 0; 0; 0; 0; 0; 0]
-  | _ => enc_wres x ++ enc_wstate (w_state w) ++ [w_sent w; b2n (w_lp w); b2n (w_cclosed w)]
+  | WPanic => [3; 0; 0; 0; 0; 0; 0; 0; 0]
+  | _ => enc_wres x ++ enc_wstate (w_state w) ++ [w_sent w; b2n (w_lp w); b2n (w_cclosed w); nlen (w_frames w)]
   end.
 
 Definition enc_rres (x : rres) : list N :=
@@ -81,170 +128,274 @@ Definition enc_rstate (r : reader) : list N :=
   | ProcPend a b c => [3; a; b; c]
   | Failed => [4; 0; 0; 0]
   end ++ [r_nread r; r_offset r; enc_opt (r_cfs r)].
+(* the last number: read_buffer[..nread] equals the wire at [pulled - nread, pulled) — an invariant
+   of the model (Buffer.poll_read_win), so the model always says 1 *)
 Definition enc_rrec (xr : rres * reader) : list N :=
   let '(x, r) := xr in
   match x with
-  | RPanic => [3; 0; 0; 0; 0; 0; 0; 0; 0; 0; 0; 0]
-  | _ => enc_rres x ++ enc_rstate r ++ [r_wbase r + r_nread r; b2n (r_lp r)]
+  | RPanic => [3; 0; 0; 0; 0; 0; 0; 0; 0; 0; 0; 0; 0; 0]
+  | _ => enc_rres x ++ enc_rstate r ++ [r_wbase r + r_nread r; b2n (r_lp r); r_ctr r; 1]
   end.
+Definition enc_srec (q : srec) : list N :=
+  match q with QR x r => 0 :: enc_rrec (x, r) | QW x w => 1 :: enc_wrec (x, w) end.
 
-Definition header (c : cfg) : list N := [MSG; TAG; c_mfl c; rbuf_len c; ebuf_len c].
+Definition header (c : cfg) : list N := [MSG; TAG; c_mfl c; rbuf_len c; ebuf_len c; SNOW_MAX; c_mfl c].
 
-(* frame headers of the bytes that reached the carrier; a trailing 0 marks an incomplete frame *)
-Definition wire_hdrs (w : writer) : list N :=
-  let fr := sent_frames (w_frames w) (w_sent w) in
-  map (fun x => x + TAG) fr ++ (if frames_wire fr =? w_sent w then [] else [0]).
+Definition enc_round (tr : rtrace) : list N :=
+  enc_list enc_wrec (rt_wrecs tr) ++ [b2n (rt_ok tr)] ++
+  (if rt_ok tr then
+     enc_wrec (rt_flush tr) ++
+     (if w_is_final (fst (rt_flush tr)) then []
+      else
+        let w := snd (rt_flush tr) in
+        let whole := frames_wire (sent_frames (w_frames w) (w_sent w)) =? w_sent w in
+        enc_list (fun x => [x]) (map (fun x => x + TAG) (rt_new tr) ++ (if whole then [] else [0])) ++
+        [rt_avail tr] ++ enc_list enc_srec (rt_mixed tr) ++ [b2n (rt_ok2 tr)])
+   else []).
 
 Definition run_case (l : list N) : list N :=
   match decode_case l with
   | None => [0]
   | Some k =>
       let c := k_cfg k in
-      let '(wtr, w, ok) := run_writer c (k_wops k) (k_wsc k) writer_init in
-      1 :: header c ++ enc_list enc_wrec wtr ++ [b2n ok] ++
-      (if ok then
-         let '(fx, fw, _) := poll_flush c [] w in
-         match fx with
-         | WPanic => enc_wrec (fx, fw) ++ [0; 0; 0]
-         | _ =>
-             let plains := sent_frames (w_frames fw) (w_sent fw) in
-             let e := env_of c plains (k_tamper k) in
-             enc_wrec (fx, fw) ++
-             enc_list (fun x => [x]) (wire_hdrs fw) ++
-             [e_avail e] ++
-             enc_list enc_rrec (run_reader e (expand (k_reads k)) (k_rsc k) (reader_init c))
-         end
-       else [])
+      let '(trs, _, _, _) := run_rounds c (k_rounds k) (flow_init c) (flow_init c) in
+      1 :: header c ++ flat_map enc_round trs
   end.
 
 (* ---- decoding a trace ---- *)
-Record wrec := mkWQ { wq_res : wres; wq_st : wstate; wq_sent : N; wq_lp : bool; wq_closed : bool }.
+Record wrec := mkWQ { wq_res : wres; wq_st : wstate; wq_sent : N; wq_lp : bool; wq_closed : bool; wq_nf : N }.
 Definition p_wrec : parser wrec :=
   let* tag := pN in let* a := pN in
   let* st := pN in let* off := pN in let* elen := pN in let* sent := pN in
-  let* lp := pBool in let* cl := pBool in
+  let* lp := pBool in let* cl := pBool in let* nf := pN in
   let x := match tag with 0 => WReady a | 1 => WPending | 2 => WErr a | _ => WPanic end in
-  pret (mkWQ x (if st =? 0 then WIdle else Writing off elen) sent lp cl).
+  pret (mkWQ x (if st =? 0 then WIdle else Writing off elen) sent lp cl nf).
 
-Record rrec := mkRR { q_res : rres; q_tag : N; q_nread : N; q_offset : N; q_pulled : N; q_lp : bool }.
+Record rrec := mkRR { q_res : rres; q_tag : N; q_nread : N; q_offset : N; q_pulled : N; q_lp : bool;
+                      q_ctr : N; q_win : bool }.
 Definition p_rrec : parser rrec :=
   let* tag := pN in let* a := pN in let* b := pN in
   let* st := pN in let* _ := pN in let* _ := pN in let* _ := pN in
   let* nread := pN in let* offset := pN in let* _ := pN in let* pulled := pN in let* lp := pBool in
+  let* ctr := pN in let* win := pN in
   let x := match tag with 0 => RReady a b | 1 => RPending | 2 => RErr a | _ => RPanic end in
-  pret (mkRR x st nread offset pulled lp).
+  pret (mkRR x st nread offset pulled lp ctr (win =? 1)).
 
-Record trace := mkTrace {
-  t_header : list N;
-  t_wrecs : list wrec;
-  t_ok : bool;
-  t_rest : option (wrec * list N * N * list rrec)
+Inductive mrec := MR (q : rrec) | MW (q : wrec).
+Definition p_mrec : parser mrec :=
+  let* tag := pN in
+  match tag with
+  | 0 => let* q := p_rrec in pret (MR q)
+  | 1 => let* q := p_wrec in pret (MW q)
+  | _ => pfail
+  end.
+
+Record tround := mkTR {
+  tr_wrecs : list wrec; tr_flush : wrec; tr_hdrs : list N; tr_avail : N; tr_mixed : list mrec
 }.
 
-Definition p_trace : parser trace :=
-  let* h := prep 5 pN in
+(* a round that was cut short by a panic does not parse *)
+Definition p_tround : parser tround :=
   let* wr := plist p_wrec in
   let* ok := pBool in
   if ok then
     let* fl := p_wrec in
-    let* hdrs := plist pN in
-    let* avail := pN in
-    let* rr := plist p_rrec in
-    pret (mkTrace h wr true (Some (fl, hdrs, avail, rr)))
-  else pret (mkTrace h wr false None).
+    match wq_res fl with
+    | WPanic => pfail
+    | _ =>
+        let* hdrs := plist pN in
+        let* avail := pN in
+        let* mx := plist p_mrec in
+        let* ok2 := pBool in
+        if ok2 then pret (mkTR wr fl hdrs avail mx) else pfail
+    end
+  else pfail.
 
 (* ---- the oracle: what the property text demands of an observed run ---- *)
 
-Definition faulty_sc (sc : list N) : bool := existsb (fun x => SPECIAL <=? x) sc.
 Definition is_close (o : wop) : bool := match o with OClose => true | _ => false end.
 Definition op_len (o : wop) : N :=
   match o with OWrite len => len | OWriteV lens => first_nonempty lens | _ => 0 end.
 Definition st_idle (s : wstate) : bool := match s with WIdle => true | _ => false end.
 
-(* writer calls, one record per call: never a panic, never InvalidData; an error only when the
-   carrier was scripted to fail or was closed by the caller; a write of len bytes accepts between
-   1 and len bytes (0 for an empty buffer); poll_flush / poll_close = Ready leave nothing buffered
-   and a completed close has closed the carrier; Pending only after the carrier returned Pending
-   (so a waker is registered) *)
-Fixpoint wcalls_ok (errs : bool) (ops : list wop) (recs : list wrec) : bool :=
-  match ops, recs with
-  | [], [] => true
-  | o :: ot, q :: rt =>
-      match wq_res q with
-      | WReady n =>
-          if is_write o then (n <=? op_len o) && ((op_len o =? 0) || (1 <=? n))
-          else st_idle (wq_st q) && (negb (is_close o) || wq_closed q)
-      | WPending => wq_lp q && (negb (is_write o) || (1 <=? op_len o))
-      | WErr e => errs && negb (e =? E_INVALID)
-      | WPanic => false
-      end && wcalls_ok errs ot rt
-  | _, _ => false
-  end.
+(* an error kind the script makes the carrier return *)
+Definition scripted_b (sc : list N) (e : N) : bool :=
+  existsb (fun x => (SPECIAL <? x) && (ecode (x - SPECIAL) =? e)) sc.
 
-(* plaintext accepted while the carrier was still open *)
-Fixpoint waccepted (ops : list wop) (recs : list wrec) : N :=
+(* an error of a writer-side call is always the carrier's: BrokenPipe once the caller has closed
+   the carrier, WriteZero for a zero-length acceptance, or the scripted I/O error unchanged; the
+   socket never fails by itself *)
+Definition werr_ok (sc : list N) (closed : bool) (e : N) : bool :=
+  (closed && (e =? E_BROKENPIPE)) || (existsb (N.eqb SPECIAL) sc && (e =? E_WRITEZERO)) || scripted_b sc e.
+
+(* the writer half of one socket, as seen so far *)
+Record wst := mkWS { ws_closed : bool; ws_acc : N; ws_sent : N; ws_nf : N }.
+Definition wst_init : wst := mkWS false 0 0 0.
+
+(* writer calls, one record per call: never a panic; an error only as werr_ok allows; a write of
+   len bytes accepts between 1 and len bytes (0 for an empty buffer) and encrypts them in frames of
+   1..MAX_FRAME_LEN bytes (the sending nonce advances once per frame, and only then);
+   poll_flush / poll_close = Ready leave nothing buffered and a completed close has closed the
+   carrier; Pending only after the carrier returned Pending (so a waker is registered); a closed
+   carrier stays closed and receives nothing more.  Returns the state after the calls (None: a
+   violation); ws_acc sums the plaintext accepted while the carrier was open. *)
+Fixpoint wcalls (mfl : N) (sc : list N) (ops : list wop) (recs : list wrec) (s : wst) : option wst :=
   match ops, recs with
+  | [], [] => Some s
   | o :: ot, q :: rt =>
-      if wq_closed q then 0
-      else (if is_write o then match wq_res q with WReady n => n | _ => 0 end else 0) + waccepted ot rt
-  | _, _ => 0
+      let dnf := wq_nf q - ws_nf s in
+      let same_nf := wq_nf q =? ws_nf s in
+      let good :=
+        match wq_res q with
+        | WReady n =>
+            if is_write o then
+              (n <=? op_len o) && ((op_len o =? 0) || (1 <=? n)) &&
+              (ws_nf s <=? wq_nf q) && (dnf <=? n) && (n <=? dnf * mfl)
+            else st_idle (wq_st q) && (negb (is_close o) || wq_closed q) && same_nf
+        | WPending => wq_lp q && (negb (is_write o) || (1 <=? op_len o)) && same_nf
+        | WErr e => werr_ok sc (ws_closed s) e && same_nf
+        | WPanic => false
+        end in
+      let closed_ok :=
+        (negb (ws_closed s) || (wq_closed q && (wq_sent q =? ws_sent s))) &&
+        (negb (wq_closed q) || ws_closed s || is_close o) && (ws_sent s <=? wq_sent q) in
+      if good && closed_ok then
+        let acc := if wq_closed q then ws_acc s
+                   else ws_acc s + (if is_write o then match wq_res q with WReady n => n | _ => 0 end else 0) in
+        wcalls mfl sc ot rt (mkWS (wq_closed q) acc (wq_sent q) (wq_nf q))
+      else None
+  | _, _ => None
   end.
 
 (* frames on the wire: each carries 1..MAX_FRAME_LEN plaintext bytes in a Noise message of at
    most 65535 bytes *)
 Definition hdr_ok (mfl h : N) : bool := (TAG + 1 <=? h) && (h <=? SNOW_MAX) && (h - TAG <=? mfl).
 
-(* plaintext an honest reader may deliver from a wire: the frames of the longest prefix of items
-   that are, in order, the unmodified ciphertexts 0,1,2,.. with a truthful header, and that the
-   carrier delivers completely *)
-Fixpoint clean_prefix (items : list item) (plains : list N) (k avail : N) : N :=
-  match items, plains with
-  | it :: t, p :: pt =>
-      if (i_hdr it =? i_blen it) && (i_blen it =? p + TAG)
-         && match i_auth it with Some j => j =? k | None => false end
-         && (item_len it <=? avail)
-      then p + clean_prefix t pt (k + 1) (avail - item_len it)
-      else 0
-  | _, _ => 0
+Definition is_none (t : tamper) : bool := match t with TNone => true | _ => false end.
+
+(* one direction of the connection, as seen so far *)
+Record ost := mkO {
+  o_items : list item; o_plains : list N; o_avail : N; o_cut : bool; o_clean : bool;
+  o_deliv : N; o_failed : bool; o_ctr : N
+}.
+Definition ost_init : ost := mkO [] [] 0 false true 0 false 0.
+
+(* one reader call (the socket is polled on after errors): never a panic, never an internal-state
+   error; a delivered chunk is the next chunk of the stream (no loss, duplication, reordering or
+   alteration), fits the caller's buffer and is non-empty for a non-empty buffer; nothing beyond the
+   clean prefix of a tampered wire is ever delivered; once the reader has failed (its own
+   InvalidData) every later call reports InvalidData and delivers nothing (fail-stop); on an
+   untampered wire it never fails; other errors are the carrier's (end of stream / zero-length
+   read, or the scripted I/O error unchanged); when the end of stream comes after the whole
+   untampered wire was pulled, everything has been delivered; Pending only after the carrier returned
+   Pending; the receiving nonce advances by one exactly with a decrypted frame; the read buffer is
+   a window of the wire *)
+Definition rcall (rsc : list N) (limit total : N) (b : N) (q : rrec) (o : ost) : option ost :=
+  let isf := q_tag q =? 4 in
+  let step := (q_ctr q =? o_ctr o) || (q_ctr q =? o_ctr o + 1) in
+  let upd d f := mkO (o_items o) (o_plains o) (o_avail o) (o_cut o) (o_clean o) d f (q_ctr q) in
+  if negb (q_win q && step) then None else
+  match q_res q with
+  | RReady n pos =>
+      if negb (o_failed o) && negb isf && (pos =? o_deliv o) && (n <=? b) && ((b =? 0) || (1 <=? n)) &&
+         (o_deliv o + n <=? limit)
+      then Some (upd (o_deliv o + n) false) else None
+  | RPending =>
+      if negb (o_failed o) && negb isf && q_lp q && (q_ctr q =? o_ctr o) then Some (upd (o_deliv o) false) else None
+  | RErr e =>
+      if isf then
+        if (e =? E_INVALID) && negb (o_clean o) && (q_ctr q =? o_ctr o) then Some (upd (o_deliv o) true) else None
+      else
+        if negb (o_failed o) && (q_ctr q =? o_ctr o) &&
+           ((e =? E_EOF) || scripted_b rsc e) &&
+           (negb (o_clean o) || negb ((e =? E_EOF) && (q_pulled q =? o_avail o)) || (o_deliv o =? total))
+        then Some (upd (o_deliv o) false) else None
+  | RPanic => None
   end.
 
-Definition is_clean (t : tamper) : bool :=
-  match t with TNone => true | _ => false end.
-
-(* reader calls (the socket is polled on after errors): never a panic, never an internal-state
-   error; every delivered chunk is the next chunk of the stream (no loss, duplication, reordering
-   or alteration), fits the caller's buffer and is non-empty for a non-empty buffer; nothing beyond
-   the clean prefix of a tampered wire is ever delivered; once InvalidData was reported every later
-   call reports InvalidData (fail-stop); on an untampered wire InvalidData never occurs; other
-   errors are the carrier's (EOF / zero-length read, or a scripted I/O error); when EOF comes
-   after the whole untampered wire was pulled, everything has been delivered; Pending only after the
-   carrier returned Pending *)
-Fixpoint rcalls_ok (clean rerrs : bool) (limit total avail : N) (bufs : list N) (recs : list rrec)
-                   (delivered : N) (failed : bool) : bool :=
-  match recs with
-  | [] => true
-  | q :: rt =>
-      match bufs with
-      | [] => false
-      | b :: bt =>
-          match q_res q with
-          | RReady n pos =>
-              negb failed && (pos =? delivered) && (n <=? b) && ((b =? 0) || (1 <=? n)) &&
-              (delivered + n <=? limit) &&
-              rcalls_ok clean rerrs limit total avail bt rt (delivered + n) failed
-          | RPending =>
-              negb failed && q_lp q && rcalls_ok clean rerrs limit total avail bt rt delivered failed
-          | RErr e =>
-              if e =? E_INVALID then
-                negb clean && rcalls_ok clean rerrs limit total avail bt rt delivered true
-              else
-                negb failed &&
-                ((e =? E_EOF) || (rerrs && (6 <=? e) && (e <=? 9))) &&
-                (negb clean || negb ((e =? E_EOF) && (q_pulled q =? avail)) || (delivered =? total)) &&
-                rcalls_ok clean rerrs limit total avail bt rt delivered failed
-          | RPanic => false
-          end
+(* the records of a read phase against its schedule: reader calls of direction d, writer calls of
+   the reading socket (direction 1-d) *)
+Fixpoint mcalls (mfl : N) (rsc xsc : list N) (limit total : N) (sched : list sop) (recs : list mrec)
+                (o : ost) (w : wst) : option (ost * wst) :=
+  match sched, recs with
+  | [], [] => Some (o, w)
+  | SR b :: st, MR q :: rt =>
+      match rcall rsc limit total b q o with
+      | Some o' => mcalls mfl rsc xsc limit total st rt o' w
+      | None => None
       end
+  | SW op :: st, MW q :: rt =>
+      match wcalls mfl xsc [op] [q] w with
+      | Some w' => mcalls mfl rsc xsc limit total st rt o w'
+      | None => None
+      end
+  | _, _ => None
+  end.
+
+(* one round of direction d: (o, w) = that direction's reader and writer state, x = the writer
+   state of the opposite direction *)
+Definition round_ok (c : cfg) (rd : round) (t : tround) (o : ost) (w x : wst) : option (ost * wst * wst) :=
+  match wcalls (c_mfl c) (rd_wsc rd) (rd_wops rd) (tr_wrecs t) w with
+  | None => None
+  | Some w1 =>
+      let fq := tr_flush t in
+      (* the final flush (carrier accepting everything): completes unless the carrier was closed by
+         the caller; what reached the carrier is whole frames, and their plaintext is exactly what
+         was accepted while the carrier was open *)
+      match wcalls (c_mfl c) [] [OFlush] [fq] w1 with
+      | None => None
+      | Some w2 =>
+          let new := map (fun h => h - TAG) (tr_hdrs t) in
+          let plains := o_plains o ++ new in
+          let total := sum plains in
+          let flush_ok :=
+            match wq_res fq with
+            | WReady _ => true
+            | WErr e => wq_closed fq
+            | _ => false
+            end in
+          let fresh := apply_tampers (rd_tampers rd) (honest_from (nlen (o_plains o)) new) in
+          let base := wire_len (o_items o) in
+          let o1 :=
+            if o_cut o then mkO (o_items o) plains (o_avail o) true false (o_deliv o) (o_failed o) (o_ctr o)
+            else match trunc_of (rd_tampers rd) with
+                 | Some pos => mkO (o_items o ++ fresh) plains (base + N.min pos (wire_len fresh)) true false
+                                   (o_deliv o) (o_failed o) (o_ctr o)
+                 | None => mkO (o_items o ++ fresh) plains (base + wire_len fresh) false
+                               (o_clean o && forallb is_none (rd_tampers rd))
+                               (o_deliv o) (o_failed o) (o_ctr o)
+                 end in
+          if flush_ok && forallb (hdr_ok (c_mfl c)) (tr_hdrs t) &&
+             (wq_sent fq =? frames_wire plains) && (total =? ws_acc w2) &&
+             (nlen plains <=? ws_nf w2) && (ws_closed w2 || (nlen plains =? ws_nf w2)) &&
+             (tr_avail t =? o_avail o1)
+          then
+            match mcalls (c_mfl c) (rd_rsc rd) (rd_xsc rd)
+                         (clean_prefix (o_items o1) plains 0 (o_avail o1)) total
+                         (rd_sched rd) (tr_mixed t) o1 x with
+            | Some (o2, x2) => Some (o2, w2, x2)
+            | None => None
+            end
+          else None
+      end
+  end.
+
+(* all rounds; state: direction 0 (reader, writer), direction 1 (reader, writer) *)
+Fixpoint rounds_ok (c : cfg) (rds : list round) (ts : list tround) (o0 : ost) (w0 : wst) (o1 : ost) (w1 : wst) : bool :=
+  match rds, ts with
+  | [], [] => true
+  | rd :: rt, t :: tl =>
+      if rd_dir rd then
+        match round_ok c rd t o1 w1 w0 with
+        | Some (o1', w1', w0') => rounds_ok c rt tl o0 w0' o1' w1'
+        | None => false
+        end
+      else
+        match round_ok c rd t o0 w0 w1 with
+        | Some (o0', w0', w1') => rounds_ok c rt tl o0' w0' o1 w1'
+        | None => false
+        end
+  | _, _ => false
   end.
 
 Definition prop_ok (case trace : list N) : bool :=
@@ -253,35 +404,12 @@ Definition prop_ok (case trace : list N) : bool :=
   | Some k, 1 :: body =>
       let c := k_cfg k in
       if (1 <=? c_factor c) && (1 <=? c_wbuf c) then
-        match pall p_trace body with
+        match pall (let* h := prep 7 pN in
+                    let* ts := prep (length (k_rounds k)) p_tround in pret (h, ts)) body with
         | None => false
-        | Some t =>
-            nlist_eqb (t_header t) (header c) &&
-            t_ok t &&
-            wcalls_ok (faulty_sc (k_wsc k) || existsb is_close (k_wops k)) (k_wops k) (t_wrecs t) &&
-            match t_rest t with
-            | None => false
-            | Some (fq, hdrs, avail, rr) =>
-                let plains := map (fun h => h - TAG) hdrs in
-                let total := sum plains in
-                let items := apply_tamper (k_tamper k) (honest plains) in
-                let was_closed := existsb wq_closed (t_wrecs t) in
-                (* the final flush (carrier accepting everything): completes unless the carrier was
-                   closed by the caller; what reached the carrier is whole frames, and their
-                   plaintext is exactly what was accepted while the carrier was open *)
-                match wq_res fq with
-                | WReady _ => st_idle (wq_st fq)
-                | WErr e => was_closed && (e =? E_BROKENPIPE)
-                | _ => false
-                end &&
-                (wq_sent fq =? frames_wire plains) &&
-                forallb (hdr_ok (c_mfl c)) hdrs &&
-                (total =? waccepted (k_wops k) (t_wrecs t)) &&
-                (avail =? tamper_avail (k_tamper k) (honest plains)) &&
-                rcalls_ok (is_clean (k_tamper k)) (faulty_sc (k_rsc k))
-                          (clean_prefix items plains 0 avail) total avail
-                          (expand (k_reads k)) rr 0 false
-            end
+        | Some (h, ts) =>
+            nlist_eqb h (header c) &&
+            rounds_ok c (k_rounds k) ts ost_init wst_init ost_init wst_init
         end
       else true    (* a zero read-ahead factor or write-buffer size is outside the property *)
   | _, _ => false
